@@ -51,6 +51,63 @@ def fields_of(m):
     return out
 
 
+def c2init_part(ctx, keys, other):
+    """C2Init.tla: construction of C2Http over every class of key material arguments"""
+    import hashlib
+
+    from dissect.cobaltstrike import beacon, c2
+    from vt import tlaval
+    from vt.ref import tlv
+
+    cfg = "CONSTANTS\n LATECHECK = %s\nSPECIFICATION Spec\nINVARIANT MatchesTable\nINVARIANT ReadyHasKeys\nPROPERTY Terminates\nCHECK_DEADLOCK FALSE\n"
+    dot = ctx.outdir / "c2init.dot"
+    r = ctx.tlc("C2Init", cfg % "FALSE", name="c2init-model", workers=4, extra=["-dump", "dot,actionlabels", str(dot)])
+    core.require_clean(r, "C2Init")
+    core.require_coverage(r, ["CheckBoth", "CheckRequired", "Derive", "CheckAes", "CheckHmac", "CheckPair", "CheckTrial"])
+    r0 = ctx.tlc("C2Init", cfg % "TRUE", name="c2init-latecheck", workers=2, coverage=False)
+    if r0.ok:
+        raise core.MachineryError("C2Init.tla accepts length checks before key derivation (vacuous?)")
+    g = tlaval.Graph(dot)
+    dot.unlink()
+    rng = random.Random(ctx.seed + 66)
+    key = keys[128]
+    der = key.publickey().export_key("DER")
+    blocks = {t: b"".join(tlv.http_config(der, extra=[tlv.short(31, 1 if t else 0)])) for t in (False, True)}
+    n = 0
+    for st in g.nodes.values():
+        if st["pc"] != "done":
+            continue
+        a, res = st["a"], st["res"]
+        val = {"none": None, "empty": b"", "k16": rng.randbytes(16), "k15": rng.randbytes(15), "k17": rng.randbytes(17), "h16": rng.randbytes(16), "h15": rng.randbytes(15),
+               "r16": rng.randbytes(16), "r5": rng.randbytes(5)}
+        kw = dict(aes_key=val[a["aes"]], hmac_key=val[a["hmac"]], aes_rand=val[a["rand"]], rsa_private_key={"none": None, "match": key, "mismatch": other}[a["rsa"]])
+        if not a["verify"] or rng.random() < 0.5:
+            kw["verify_hmac"] = a["verify"]
+        bc = beacon.BeaconConfig(blocks[a["trial"]])
+        o = core.outcome(lambda: c2.C2Http(bc, **kw))
+        ctx.evaluations += 1
+        got = "ok" if o[0] == "ok" else (o[0] if o[0] in ("ValueError",) else str(o[1]).split(":")[0].split("(")[0])
+        bad = None
+        if got != res["r"]:
+            bad = "outcome"
+        elif o[0] == "ok":
+            h = o[1]
+            digest = hashlib.sha256(kw["aes_rand"]).digest() if kw["aes_rand"] else None
+            want_aes = {"derived_aes": digest[:16] if digest else None, "none": None}.get(res["aes"], kw["aes_key"])
+            want_hmac = {"derived_hmac": digest[16:] if digest else None, "none": None}.get(res["hmac"], kw["hmac_key"])
+            if (h.aes_key, h.hmac_key) != (want_aes, want_hmac) or tuple(h.beacon_keys) != (want_aes, want_hmac, b"abcdefghijklmnop"):
+                bad = "keys"
+            elif bool(h.verify_hmac) != res["verify"] or (h.priv is not None) != res["rsa"] or (h.priv is not None and h.priv.n != key.n):
+                bad = "flags"
+        if bad:
+            ctx.violation("C2Http construction disagrees with C2Init.tla", {"op": "C2Http.__init__", "failed": bad},
+                          {"args": a, "got": got if o[0] != "ok" else "ok", "expected": res})
+        ctx.count_distinct(("c2init", repr(sorted(a.items()))))
+        n += 1
+    ctx.traces += n
+    ctx.notes["c2init"] = {"argument_classes_replayed": n}
+
+
 def run(ctx):
     from Crypto.PublicKey import RSA
 
@@ -70,6 +127,8 @@ def run(ctx):
 
     def viol(op, failed, detail):
         ctx.violation(f"{op} disagrees with MetadataR", {"op": op, "failed": failed}, detail)
+
+    c2init_part(ctx, keys, other)
 
     ev = []
 
